@@ -3,7 +3,8 @@
    0 <= cursor <= len(text).  A buffer is (text, cursor); positions are code
    point indices; firstn/skipn are the mathematical prefix/suffix. *)
 From Coq Require Import ZArith List Bool.
-From PTK Require Import Lib.Sx Lib.Py Model.Document Model.BufferEdit Proofs.BufferEditFacts.
+From PTK Require Import Lib.Sx Lib.Py Model.Document Model.BufferEdit Proofs.BufferEditFacts
+  Proofs.BufferEditLines Proofs.BufferEditIndent.
 Import ListNotations.
 Open Scope Z_scope.
 
@@ -86,6 +87,70 @@ Theorem C01_transform_region : forall F b a e,
              ++ skipn (Z.to_nat e) (btext b)) c') [] /\ 0 <= c'.
 Proof. exact transform_region_spec. Qed.
 Print Assumptions C01_transform_region.
+
+(* [line_split b pre line post]: text = pre ++ line ++ post where line is the
+   cursor's line (no line ending in it, pre empty or ending in one, post empty
+   or starting with one).  Every Inv state has such a decomposition. *)
+Theorem C01_current_line_split : forall b,
+  Inv b -> exists pre line post, line_split b pre line post.
+Proof. exact current_line_split. Qed.
+Print Assumptions C01_current_line_split.
+
+(* A current-line transform (the case transforms of the editor are instances)
+   alters only the current line, whatever the callback F. *)
+Theorem C01_transform_current_line : forall F b pre line post,
+  Inv b -> line_split b pre line post ->
+  exists c', transform_current_line F b = Ok (mkbuf (pre ++ F line ++ post) c') [] /\ 0 <= c'.
+Proof. exact transform_current_line_spec. Qed.
+Print Assumptions C01_transform_current_line.
+
+(* newline inserts a line ending plus (optionally) a margin of blanks at the
+   cursor and nothing else. *)
+Theorem C01_newline : forall b cm,
+  Inv b ->
+  exists m,
+    newline b cm =
+    Ok (mkbuf (firstn (Z.to_nat (bcur b)) (btext b) ++ NL :: m ++ skipn (Z.to_nat (bcur b)) (btext b))
+              (bcur b + 1 + len m)) [] /\
+    forallb is_space m = true /\ (cm = false -> m = []).
+Proof. exact newline_spec. Qed.
+Print Assumptions C01_newline.
+
+(* line-join replaces only the line ending after the current line and the
+   blanks following it by the separator. *)
+Theorem C01_join_next_line : forall b sep pre line r,
+  Inv b -> line_split b pre line (NL :: r) -> on_last_line (bdoc b) = false ->
+  exists c',
+    join_next_line b sep = Ok (mkbuf (pre ++ line ++ sep ++ lstrip_by (Z.eqb SP) r) c') [] /\
+    0 <= c'.
+Proof. exact join_next_line_spec. Qed.
+Print Assumptions C01_join_next_line.
+
+(* indent / unindent (and every other row transform): rows a..b-1 (clipped to
+   the line count) are transformed, every other line is kept in place. *)
+Theorem C01_transform_lines : forall F text a b,
+  0 <= a -> a <= b ->
+  let ls := split_on NL text in
+  let e := Z.min b (len ls) in
+  a <= e ->
+  transform_lines F text a b =
+  join [NL] (firstn (Z.to_nat a) ls
+             ++ map F (firstn (Z.to_nat (e - a)) (skipn (Z.to_nat a) ls))
+             ++ skipn (Z.to_nat e) ls).
+Proof. exact transform_lines_spec. Qed.
+Print Assumptions C01_transform_lines.
+
+Theorem C01_indent_text : forall b a e c b' r,
+  indent b a e c = Ok b' r ->
+  btext b' = transform_lines (fun l => str_mul INDENT c ++ l) (btext b) a e.
+Proof. exact indent_text. Qed.
+Print Assumptions C01_indent_text.
+
+Theorem C01_unindent_text : forall b a e c b' r,
+  unindent b a e c = Ok b' r ->
+  btext b' = transform_lines (unindent_line (str_mul INDENT c)) (btext b) a e.
+Proof. exact unindent_text. Qed.
+Print Assumptions C01_unindent_text.
 
 (* After every edit - any operation of the model, any arguments (negative and
    oversized counts included), exceptions included - the cursor is within
